@@ -65,7 +65,12 @@ Variable E : env.
 Definition hcell_ok (rec : hmsg -> bool) (f : field) (v : hval) : bool :=
   match f_type f with
   | TString => match v with HStr PDef => has_default f | HStr _ | HScalar => true | _ => false end
-  | TBytes => match v with HBytes _ PDef => has_default f | HBytes _ _ | HScalar => true | _ => false end
+  | TBytes => match v with
+              | HBytes _ PDef => has_default f
+              | HBytes n (PHeap _) => negb (n =? 0)      (* a heap block only for a non-empty value *)
+              | HBytes _ PNull | HScalar => true
+              | _ => false
+              end
   | TMessage => match v with
                 | HMsg (Some m) => rec m && Nat.eqb (hm_d m) (f_sub f)
                 | HMsg None | HScalar => true
@@ -90,8 +95,10 @@ Definition owns_nothing (v : hval) : bool :=
    non-empty: merge_messages relies on this when it overwrites the latter message's pointer without freeing it) *)
 Definition hslot_ok (rec : hmsg -> bool) (complete : bool) (nunions : nat) (f : field) (s : hslot) : bool :=
   match s with
-  | HOne _ v => negb (label_eqb (f_label f) LRepeated) && negb (f_oneof f) &&
-                match f_quant f with QCase _ => false | _ => true end && hcell_ok rec f v
+  | HOne has v => negb (label_eqb (f_label f) LRepeated) && negb (f_oneof f) &&
+                match f_quant f with QCase _ => false | _ => true end && hcell_ok rec f v &&
+                (* a cleared has flag: the member holds its default / NULL, never a heap block *)
+                match f_quant f with QHas => negb (has =? 0) || owns_nothing v | _ => true end
   | HRep arr => label_eqb (f_label f) LRepeated &&
                 match arr with
                 | None => true
